@@ -12,6 +12,8 @@ for cfg in std alloc noalloc; do
   ( cd harness && cargo build --offline --quiet $feat --target-dir target/$cfg ) &
 done
 ( cd harness && cargo build --offline --quiet --features std --config profile.dev.opt-level=0 --target-dir target/std0 ) &
+# the exploration targets (coverage-guided; auxiliary: the checks skip the stage when this build is unavailable)
+( cd fuzz && RUSTFLAGS="-Cpasses=sancov-module -Cllvm-args=-sanitizer-coverage-level=4 -Cllvm-args=-sanitizer-coverage-trace-compares -Cllvm-args=-sanitizer-coverage-inline-8bit-counters -Cllvm-args=-sanitizer-coverage-pc-table -Cllvm-args=-sanitizer-coverage-trace-divs -Cllvm-args=-sanitizer-coverage-trace-geps --cfg fuzzing -Ccodegen-units=1" cargo +nightly build --offline --release --quiet --target x86_64-unknown-linux-gnu --target-dir target/fz || echo "exploration targets not built (stage will be skipped)" ) &
 wait
 cargo build --offline --quiet --manifest-path /repo/Cargo.toml --target-dir work/cli-target --bin aisparser
 echo setup-ok
